@@ -487,9 +487,21 @@ func run(c *vf.Ctx) {
 					c.Eval(1)
 					pairs++
 					if err != nil {
-						// no route: the mesh is not converged for this pair (C09's business) - skip
 						rec.events = rec.events[:before]
-						c.Extra("pingpong_send_error", fmt.Sprintf("%s %d->%d: %v", f.name, a, bb, err))
+						hasRoute := false
+						for _, rt := range ms.Table(a) {
+							if rt.Dst == bb {
+								hasRoute = true
+							}
+						}
+						if hasRoute {
+							// the origin holds a route to B and still refuses to send its own request: the request is never handed to B
+							c.Violation(vf.Key("request-not-sent", f.name), fmt.Sprintf("converged %s of %d: router %d has a route to %d, but its request was refused: %v", f.name, n, a, bb, err),
+								map[string]any{"family": f.name, "n": n, "edges": raw, "from": a, "to": bb, "err": err.Error()}, nil)
+						} else {
+							// no route: the mesh is not converged for this pair (C09's business) - skip
+							c.Extra("pingpong_send_error", fmt.Sprintf("%s %d->%d: %v", f.name, a, bb, err))
+						}
 						continue
 					}
 					// the request is the first crossing recorded after `before`; register it as driver-originated
